@@ -609,6 +609,8 @@ def _local_item(T, e, pos):
 def flatten(T, tvs, axis):
     """flatten(axis>=1): splice the lists at that level into their parents; a missing list contributes
     nothing.  axis=0: drop top-level None."""
+    if _has_kind(T, ("union",)) and array_depth(T)[0] != array_depth(T)[1] and axis > 0 and len(tvs) == 0:
+        raise Skip("empty array of a union whose branches differ in depth: legality of the axis is not decidable from the data")
     pos = _axis_pos(T, axis)
     if pos == 0:
         if T[0] == "opt":
